@@ -90,16 +90,18 @@ def process (sc : ScJ) (obs : ObsJ) : Except String Json := do
   -- the harness could not carry out its schedule on the implementation (no quiescence within the watchdog, or
   -- a task it had to release was not parked): a liveness / protocol failure of the implementation
   if sc.decisions.any (·.startsWith "bad:") then
-    return Json.mkObj [("agree", Json.bool false), ("spec", Json.mkObj [("C06", Json.bool false), ("C07", Json.bool false), ("C08", Json.bool false), ("C09", Json.bool false), ("C11", Json.bool false), ("C02", Json.bool false)]),
-      ("specModel", Json.mkObj [("C06", Json.bool true), ("C07", Json.bool true), ("C08", Json.bool true), ("C09", Json.bool true), ("C11", Json.bool true), ("C02", Json.bool true)]), ("nontrivial", Json.mkObj []),
+    return Json.mkObj [("agree", Json.bool false), ("spec", Json.mkObj [("C06", Json.bool false), ("C07", Json.bool false), ("C08", Json.bool false), ("C09", Json.bool false), ("C11", Json.bool false), ("C02", Json.bool false), ("C17", Json.bool false)]),
+      ("specModel", Json.mkObj [("C06", Json.bool true), ("C07", Json.bool true), ("C08", Json.bool true), ("C09", Json.bool true), ("C11", Json.bool true), ("C02", Json.bool true), ("C17", Json.bool true)]), ("nontrivial", Json.mkObj []),
       ("model", Json.str "the implementation hung or left the gating protocol; the model does neither")]
   let c ← match cfgOf sc with | some c => pure c | none => throw "bad scenario"
   let ds ← match sc.decisions.mapM parseDecision with | some d => pure d | none => throw "bad decision"
   let prepVals ← match parseVals sc.prep with | some v => pure v | none => throw "bad prep"
   let fuel := 50 * (sc.n + 2) * (sc.budget + 2) + 100
-  let states ← match simulate c fuel ds with
-    | some st => pure st
-    | none => throw "decision not enabled in the model (released a task that is not parked)"
+  -- when the implementation released a call that is not parked in the model the schedules have diverged:
+  -- that is a disagreement (the model's observation is then the start-up state only), not a protocol error
+  let (states, diverged) := match simulate c fuel ds with
+    | some st => (st, false)
+    | none => ([quiesce c fuel (init c)], true)
   -- model observation
   let mPhases : List (List (Nat × Nat)) :=
     (states.foldl (fun (acc : List (List (Nat × Nat)) × Nat) s => (acc.1 ++ [newStarts s acc.2], s.log.length)) ([], 0)).1
@@ -113,7 +115,7 @@ def process (sc : ScJ) (obs : ObsJ) : Except String Json := do
   let iSlotsV ← match parseVals obs.slots with | some v => pure v | none => throw "bad slots"
   let iItems ← match parseVals obs.items with | some v => pure v | none => throw "bad items"
   let iSlots := iSlotsV.map resultOfVal
-  let agree := iPhases == mPhases && iSlots == mSlots && obs.posts == mPosts && obs.out == "Adefault" && iItems == mItems
+  let agree := !diverged && iPhases == mPhases && iSlots == mSlots && obs.posts == mPosts && obs.out == "Adefault" && iItems == mItems
   let mkView (ph : List (List (Nat × Nat))) (items : List Val) (slots : List Result) (posts : Nat) (ok : Bool) : BatchView :=
     let (ev, q) := eventsOf ph ds posts
     -- fallback events are not gated: insert them from the scripts' point of view is impossible for the
@@ -123,15 +125,19 @@ def process (sc : ScJ) (obs : ObsJ) : Except String Json := do
   let mv := mkView mPhases mItems mSlots mPosts true
   let judge (v : BatchView) : List (String × Bool) :=
     [("C06", c06 c mItems v), ("C07", c07g c v), ("C08", c08 c false v), ("C09", c09 c v), ("C11", c11 c v),
-     ("C02", c02g c v)]
+     ("C02", c02g c v),
+     -- C17 inside batches: slot i is exactly what item i's exec (or fallback) returned
+     ("C17", (List.range c.n).all fun i => slotMatches c v.events i (v.slots.getD i default))]
   let anyFail := (List.range c.n).any fun i => (okOf (c.exec i 0)).isNone
   let nontrivial : List (String × Bool) :=
     [("C06", sc.n ≥ 2 && sc.conc ≥ 2), ("C07", !sc.stop && anyFail), ("C08", sc.n > sc.conc),
-     ("C09", sc.stop && (mSlots.any (·.isError))), ("C11", ds.contains .cancel), ("C02", anyFail)]
+     ("C09", sc.stop && (mSlots.any (·.isError))), ("C11", ds.contains .cancel), ("C02", anyFail),
+     ("C17", sc.n ≥ 2)]
   let kv (l : List (String × Bool)) : Json := Json.mkObj (l.map fun (k, b) => (k, Json.bool b))
   let mObs : ObsJ := { phases := mPhases.map (·.map fun (i, k) => [i, k]), items := valsStr mItems,
                        slots := valsStr (mSlots.map Result.box), posts := mPosts, out := "Adefault" }
-  pure (Json.mkObj [("agree", Json.bool agree), ("spec", kv (judge iv)), ("specModel", kv (judge mv)),
+  pure (Json.mkObj [("agree", Json.bool agree), ("spec", kv (judge iv)),
+    ("specModel", kv (if diverged then (judge mv).map (fun (k, _) => (k, true)) else judge mv)),
     ("nontrivial", kv nontrivial), ("model", toJson mObs)])
 where
   /-- C07 / C02 without the fallback-count clause (fallback calls are not visible in gated phases) -/
